@@ -137,7 +137,8 @@ var controlTable = []control{
 	// C15
 	{"C15", "negative-size-accepted-again", "deb/ar.go", "if entry.Size < 0 {\n\t\treturn nil, fmt.Errorf(\"failed to parse entry Size: negative size %d\", entry.Size)\n\t}\n", "", "C15-OFFSET"},
 	{"C15", "magic-and-again", "deb/ar.go", "if line[58] != 0x60 || line[59] != 0x0A {", "if line[58] != 0x60 && line[59] != 0x0A {", "C15-HDRMAGIC"},
-	{"C15", "short-read-test-removed", "deb/ar.go", "if count != 60 {\n\t\treturn nil, fmt.Errorf(\"Caught a short read at the end\")\n\t}\n", "", "C15-"},
+	// (removing the `count != 60` test of Ar.Next is an equivalent mutant under the io.ReaderAt contract, which the
+	// checks trust: n < len(p) comes with a non-nil error, and that error is returned first; it is not a control)
 	{"C15", "header-columns-by-map-again", "deb/ar.go", "for _, target := range []entryField{\n\t\t{\"Timestamp\", &entry.Timestamp, line[16:28]},\n\t\t{\"OwnerID\", &entry.OwnerID, line[28:34]},\n\t\t{\"GroupID\", &entry.GroupID, line[34:40]},\n\t\t{\"Size\", &entry.Size, line[48:58]},\n\t} {", "for _, target := range map[int]entryField{\n\t\t0: {\"Timestamp\", &entry.Timestamp, line[16:28]},\n\t\t1: {\"OwnerID\", &entry.OwnerID, line[28:34]},\n\t\t2: {\"GroupID\", &entry.GroupID, line[34:40]},\n\t\t3: {\"Size\", &entry.Size, line[48:58]},\n\t} {", "C15-DET"},
 	{"C15", "log-fatal-on-bad-header", "deb/ar.go", "return nil, fmt.Errorf(\"Malformed file entry line endings\")", "panic(\"Malformed file entry line endings\")", "C15-NOFATAL"},
 	// C16
